@@ -44,7 +44,24 @@ def run_jobs(tier, prop, mode, jobs, floor=None, extra=None):
                 except subprocess.TimeoutExpired:
                     return None
                 return None if "VIOL engine-hang" in r.stdout else "watchdog-under-asan-only-confirmed-not-hanging-in-plain-build"
-        common.run_sharded(res, exe, ["--seed", seed, "--mode", mode, "--extra", feat], nt if th else nq, env=common.ASAN_ENV, timeout=3000, viol_filter=flt)
+        sfx = None
+        if not (int(feat) & 64):
+            # dispatch sub-runs: a violating program is classified by a static feature of its text (vlib/mirtext.py) so that the listed known
+            # finding 'unreachable-laddr' can be told from every other violation; the feature is never used to judge a result
+            from vlib import mirtext
+            cache = {}
+
+            def sfx(case, exe=exe, feat=feat, cache=cache):
+                if case not in cache:
+                    import subprocess
+                    try:
+                        r = subprocess.run([exe, "--seed", str(seed), "--mode", mode, "--extra", str(feat), "--start", str(case), "--count", "1", "--dump"],
+                                           stdout=subprocess.PIPE, stderr=subprocess.DEVNULL, text=True, errors="replace", timeout=120, env=dict(__import__("os").environ, **common.ASAN_ENV))
+                        cache[case] = ":prog-with-unreachable-laddr" if mirtext.unreachable_laddr_with_reachable_jmpi(r.stdout) else ""
+                    except Exception:
+                        cache[case] = ""
+                return cache[case]
+        common.run_sharded(res, exe, ["--seed", seed, "--mode", mode, "--extra", feat], nt if th else nq, env=common.ASAN_ENV, timeout=3000, viol_filter=flt, fp_suffix=sfx)
         per[label] = {"build": cfg, "generator_feature_mask": feat, "programs": res.counters.get("programs", 0) - before}
     ex = {"sub_runs": per}
     ex.update(extra or {})
@@ -63,8 +80,8 @@ def run_jobs(tier, prop, mode, jobs, floor=None, extra=None):
 
 def run(tier):
     return run_jobs(tier, "C01", "c01",
-                    [("main", "fast", NOJ, 4000, 150000), ("main-asan", "asan", NOJ, 400, 12000),
-                     ("dispatch", "fast", 0, 1500, 40000), ("dispatch-asan", "asan", 0, 150, 3000)])
+                    [("main", "fast", NOJ, 8000, 150000), ("main-asan", "asan", NOJ, 400, 12000),
+                     ("dispatch", "fast", 0, 2500, 40000), ("dispatch-asan", "asan", 0, 150, 3000)])
 
 
 def replay(path):
